@@ -67,7 +67,7 @@ def gen_case(seed, tier, prop):
         for _ in range(rng.randint(1, 8 if big else 6)):
             r = rng.random()
             if r < 0.5:
-                prog.append(["recv", sid()])
+                prog.append(["recv", sid()] + (["sic"] if rng.random() < 0.08 else []))
             elif r < 0.65:
                 prog.append(["recv_nw"])
             elif r < 0.8:
@@ -166,12 +166,23 @@ class MemRun:
                     self.v("C13.not_woken", f"{where}: send on {o['label']} (began seq {o['begin']}) is still blocked "
                                             f"{it - self.last_r_close[1]} loop cycles after the last receive clone was closed")
                     break
-        if st.current_buffer_used and st.tasks_waiting_receive:
+        if st.current_buffer_used:
             # an item sits in the buffer while a receiver is parked (allowed only transiently for receivers
-            # whose cancellation is pending)
-            live = [o for o in self.pending.values() if o["kind"] == "recv" and not o["cp"] and o["blocked_since"] is not None]
-            if live and all(self.sim.loop.iterations - o["blocked_since"] > WAKE_LAT for o in live):
-                self.v("C12.stranded", f"{where}: {st.current_buffer_used} item(s) buffered while live receivers are parked")
+            # whose cancellation is pending) - whether or not the stream still counts that receiver as waiting
+            # A receive that is blocked while the buffer holds something must already have been handed its item (a
+            # parked receiver gets items directly, and a new one takes from the buffer first), so it completes within a
+            # cycle or two of this sighting.
+            live = [o for o in self.pending.values() if o["kind"] == "recv" and not o["cp"] and o["blocked_since"] is not None
+                    and o["label"] in self.open_r and not o["closed_at_begin"] and it > o["blocked_since"]]
+            # (it > blocked_since: the call is past receive()'s initial checkpoint, i.e. it has looked at the buffer)
+            for o in live:
+                o.setdefault("buffer_seen_it", it)
+        for o in self.pending.values():
+            seen = o.get("buffer_seen_it")
+            if seen is not None and not o["cp"] and it - seen > WAKE_LAT and o["label"] in self.open_r:
+                self.v("C12.stranded", f"{where}: receive on {o['label']} (began seq {o['begin']}, never cancelled) is still blocked "
+                                       f"{it - seen} loop cycles after an item was seen sitting in the buffer")
+                break
 
     def begin(self, kind, label, handle, sid=None, item=None):
         self.nop += 1
@@ -497,7 +508,15 @@ class MemRun:
             self.busy.discard(label)
             self.done += 1
 
-    async def do_recv(self, label, sid):
+    async def do_recv(self, label, sid, shape=None):
+        if shape == "sic":
+            # the receive runs behind a shield inside an already cancelled scope (clean-up code waiting for a last
+            # message): it is not cancelled, so it has to be served like any other receiver
+            self.faults["receive_behind_shield_in_cancelled_scope"] += 1
+            with CancelScope() as outer:
+                outer.cancel()
+                with CancelScope(shield=True):
+                    return await self.do_recv(label, sid)
         sc = CancelScope()
         self.cancelled.discard(sid)
         self.scopes[sid] = sc
@@ -563,7 +582,7 @@ class MemRun:
                     else:
                         self.end(o, "ok", item)
                 elif op == "recv":
-                    if await self.do_recv(label, st[1]) == "stop":
+                    if await self.do_recv(label, st[1], st[2] if len(st) > 2 else None) == "stop":
                         pass
                 elif op == "iter":
                     n = st[1]
